@@ -280,3 +280,44 @@ func min3(n int) int {
 	}
 	return n
 }
+
+func bufioReader(b []byte) *bufio.Reader { return bufio.NewReader(bytes.NewReader(b)) }
+
+func newRecorder() *httptest.ResponseRecorder { return httptest.NewRecorder() }
+
+func contextBackground() context.Context { return context.Background() }
+
+// validValue is a valid value of the type (aval.Zero may hold an unknown enum constant / unset union).
+func validValue(t schema.Type) *aval.V {
+	v := rapid.Custom(func(rt *rapid.T) *aval.V { return (&aval.Gen{S: S, MaxDepth: 2, Plain: true}).Value(rt, t, 1) }).Example(1)
+	return v
+}
+
+// benignOutcome is a well-formed, empty successful outcome for any method.
+func benignOutcome(mi *dyn.MethodInfo) *dyn.Outcome {
+	switch {
+	case mi.Rest() == "create":
+		c := &dyn.CreatedM{Id: validValue(*mi.KeyType)}
+		if mi.M.ReturnEntity {
+			c.Entity = validValue(*mi.Entity)
+		}
+		return &dyn.Outcome{Created: c}
+	case mi.Rest() == "batch_create":
+		return &dyn.Outcome{HasBatchCr: true}
+	case mi.Rest() == "get":
+		return &dyn.Outcome{Entity: validValue(*mi.Entity)}
+	case mi.Rest() == "partial_update" && mi.M.ReturnEntity:
+		return &dyn.Outcome{Entity: validValue(*mi.Entity)}
+	case strings.HasPrefix(mi.Rest(), "batch_"):
+		return &dyn.Outcome{HasBatch: true}
+	case mi.M.Kind == "FINDER" || mi.Rest() == "get_all":
+		o := &dyn.Outcome{HasElements: true}
+		if mi.M.Metadata != nil {
+			o.Metadata = validValue(*mi.M.Metadata)
+		}
+		return o
+	case mi.M.Kind == "ACTION" && mi.M.Return != nil:
+		return &dyn.Outcome{Action: validValue(*mi.M.Return)}
+	}
+	return &dyn.Outcome{}
+}
